@@ -60,6 +60,7 @@ def build_c(asan=False):
 
 def run(run, args):
     n, maxlen = (250, 40) if run.tier == "quick" else (3000, 40)
+    n *= run.scale
     rc, msg = gen_table()
     if rc != 0:
         violation(run, {"broken": "translator cannot read table.rs", "detail": msg}, nofail=True)
